@@ -207,6 +207,14 @@ int connect(int fd, const struct sockaddr* addr, socklen_t len)
             return -1;
         }
     }
+    if (ng_self() >= 0 && ng_active() && addr && addr->sa_family == AF_INET)
+    {
+        // no Nagle delay on the connections of the code under test: a small segment behind an unacknowledged one
+        // would wait for the peer's delayed ACK (40 ms of REAL time), and kernel timing must not decide what a
+        // schedule observes
+        int one = 1;
+        setsockopt(fd, IPPROTO_TCP, TCP_NODELAY, &one, sizeof one);
+    }
     return fn(fd, addr, len);
 }
 
@@ -224,7 +232,13 @@ int accept4(int fd, struct sockaddr* addr, socklen_t* len, int flags)
             return -1;
         }
     }
-    return fn(fd, addr, len, flags);
+    int r = fn(fd, addr, len, flags);
+    if (r >= 0 && ng_self() >= 0 && ng_active())
+    {
+        int one = 1; // (as in connect(): no Nagle delay, kernel timing must not decide what a schedule observes)
+        setsockopt(r, IPPROTO_TCP, TCP_NODELAY, &one, sizeof one);
+    }
+    return r;
 }
 
 int epoll_wait(int epfd, struct epoll_event* evs, int maxev, int timeout)
